@@ -234,7 +234,7 @@ Section BestPartial.
       { intros o Ho. unfold opts in Ho. apply in_flat_map in Ho. destruct Ho as [t [Ht Ho]].
         destruct (wf d t) as [x|] eqn:Ew; [|contradiction].
         destruct (bp wf thr ds (removeN t ts)) as [[v m] c] eqn:Eb. destruct Ho as [Ho|[]]. subst o.
-        exists t, x. unfold bpm, bval. cbn [fst snd]. repeat split; try reflexivity; assumption. }
+        exists t, x. unfold bpm, bval. rewrite Eb. cbn [fst snd]. repeat split; try reflexivity; assumption. }
       assert (valid_pm (d :: ds) ts (bpm b0) /\ pm_value wf thr (bpm b0) = bval b0) as Hb0.
       { unfold b0, bpm, bval. cbn [fst snd]. destruct V0 as [A [B C]]. split.
         - split; [cbn [map fst]; f_equal; exact A|]. split; [rewrite matched_cons; exact B|].
@@ -259,12 +259,12 @@ Section BestPartial.
       + destruct Hr as [[E1 _]|[o [Ho [E1 _]]]]; rewrite E1; [apply Hb0 | apply Hval, Ho].
       + destruct Hr as [[E1 E2]|[o [Ho [E1 E2]]]]; rewrite E1, E2; [apply Hb0 | apply Hval, Ho].
       + intros M [HM [HN HC]]. destruct M as [|[d' o] M]; [discriminate|].
-        cbn [map fst] in HM. inversion HM as [[Hd HM']]. subst d'.
+        cbn [map fst] in HM. injection HM as Hd HM'. subst d'.
         rewrite pm_value_cons. unfold pm_term. cbn [fst snd]. rewrite matched_cons in HN. cbn [snd] in HN.
         destruct o as [t|].
         * assert (In t ts /\ wf d t <> None) as [Ht Hw] by (apply HC; left; reflexivity).
           destruct (wf d t) as [x|] eqn:Ew; [|congruence].
-          inversion HN as [|? ? Hnt HN']; subst.
+          apply NoDup_cons_iff in HN. destruct HN as [Hnt HN'].
           assert (valid_pm ds (removeN t ts) M) as HV.
           { split; [exact HM'|]. split; [exact HN'|]. intros d' t' Hin.
             assert (In t' ts /\ wf d' t' <> None) as [H1 H2] by (apply HC; right; exact Hin).
@@ -291,3 +291,1044 @@ Lemma best_partial_attained_lemma thr s :
   valid_pm (lastw s) (froms s) (tos s) (snd (fst (best_partial thr s))) /\
   pm_value (lastw s) thr (snd (fst (best_partial thr s))) = fst (fst (best_partial thr s)).
 Proof. destruct (bp_spec (lastw s) thr (froms s) (tos s)) as [H1 [H2 _]]. split; assumption. Qed.
+
+(* ---------------------------------------------------------------------------------------------- *)
+(* lists, matrices, indices *)
+Local Open Scope nat_scope.
+
+Lemma set_nth_length {A} i (x : A) l : length (set_nth i x l) = length l.
+Proof. revert i. induction l as [|y l IH]; intros [|i]; cbn [set_nth length]; try reflexivity. rewrite IH. reflexivity. Qed.
+
+Lemma nth_set_nth {A} i (x : A) l d k :
+  nth k (set_nth i x l) d = if (k =? i) && (i <? length l) then x else nth k l d.
+Proof.
+  revert i k. induction l as [|y l IH]; intros i k.
+  - cbn [length]. replace (i <? 0) with false by (symmetry; apply Nat.ltb_ge; lia). rewrite andb_false_r. destruct i; reflexivity.
+  - destruct i as [|i], k as [|k]; cbn [set_nth nth length]; try reflexivity.
+    rewrite IH. cbn [Nat.eqb]. replace (S i <? S (length l)) with (i <? length l); [reflexivity|].
+    destruct (Nat.ltb_spec i (length l)), (Nat.ltb_spec (S i) (S (length l))); try reflexivity; lia.
+Qed.
+
+Definition dims (r c : nat) (m : matrix) : Prop := length m = r /\ forall i, i < r -> length (nth i m []) = c.
+
+Lemma mset_dims r c m i j v : dims r c m -> dims r c (mset m i j v).
+Proof.
+  intros [Hr Hc]. unfold mset. split; [rewrite set_nth_length; exact Hr|].
+  intros k Hk. rewrite nth_set_nth. destruct ((k =? i) && (i <? length m)) eqn:E; [|apply Hc, Hk].
+  rewrite set_nth_length. apply andb_true_iff in E. destruct E as [E _]. apply Nat.eqb_eq in E. subst. apply Hc, Hk.
+Qed.
+
+Lemma mget_mset r c m i j v i' j' :
+  dims r c m -> i < r -> j < c ->
+  mget (mset m i j v) i' j' = if (i' =? i) && (j' =? j) then v else mget m i' j'.
+Proof.
+  intros [Hr Hc] Hi Hj. unfold mget, mset. rewrite nth_set_nth.
+  destruct (Nat.eqb_spec i' i) as [E|E]; cbn [andb].
+  - subst i'. replace (i <? length m) with true by (symmetry; apply Nat.ltb_lt; lia).
+    rewrite nth_set_nth. rewrite (Hc i Hi). replace (j <? c) with true by (symmetry; apply Nat.ltb_lt; lia).
+    rewrite andb_true_r. reflexivity.
+  - reflexivity.
+Qed.
+
+Lemma mzero_dims r c : dims r c (mzero r c).
+Proof.
+  unfold mzero. split; [apply repeat_length|]. intros i Hi.
+  rewrite (nth_indep _ [] (repeat 0%Z c)) by (rewrite repeat_length; exact Hi).
+  rewrite nth_repeat. apply repeat_length.
+Qed.
+
+Lemma mget_mzero r c i j : mget (mzero r c) i j = 0%Z.
+Proof.
+  unfold mget, mzero. destruct (Nat.lt_ge_cases i r) as [Hi|Hi].
+  - rewrite (nth_indep _ [] (repeat 0%Z c)) by (rewrite repeat_length; exact Hi). rewrite nth_repeat. apply nth_repeat.
+  - rewrite (nth_overflow (repeat (repeat 0%Z c) r)) by (rewrite repeat_length; exact Hi). destruct j; reflexivity.
+Qed.
+
+Lemma index_of_Some x l i : index_of x l = Some i -> nth_error l i = Some x.
+Proof.
+  revert i. induction l as [|y l IH]; intros i H; cbn [index_of] in H; [discriminate|].
+  destruct (N.eqb_spec x y).
+  - inversion H. subst. reflexivity.
+  - destruct (index_of x l) as [k|]; cbn [option_map] in H; [|discriminate]. inversion H. subst. cbn. apply IH. reflexivity.
+Qed.
+
+Lemma index_of_None x l : index_of x l = None <-> ~ In x l.
+Proof.
+  induction l as [|y l IH]; cbn [index_of In]; [tauto|].
+  destruct (N.eqb_spec x y).
+  - split; [discriminate | intro H; exfalso; apply H; left; congruence].
+  - destruct (index_of x l); cbn [option_map].
+    + split; [discriminate|]. intro H. exfalso. assert (~ In x l) as H' by tauto. apply IH in H'. discriminate.
+    + split; [|reflexivity]. intros _ [H|H]; [congruence|]. apply IH in H; [exact H | reflexivity].
+Qed.
+
+Lemma index_of_In x l : In x l -> exists i, index_of x l = Some i.
+Proof.
+  intro H. destruct (index_of x l) as [i|] eqn:E; [exists i; reflexivity|]. apply index_of_None in E. contradiction.
+Qed.
+
+Lemma index_of_app_l x l l' i : index_of x l = Some i -> index_of x (l ++ l') = Some i.
+Proof.
+  revert i. induction l as [|y l IH]; intros i H; cbn [index_of app] in *; [discriminate|].
+  destruct (x =? y)%N; [exact H|].
+  destruct (index_of x l) as [k|]; cbn [option_map] in H; [|discriminate].
+  rewrite (IH k eq_refl). exact H.
+Qed.
+
+Lemma index_of_snoc_new x l : ~ In x l -> index_of x (l ++ [x]) = Some (length l).
+Proof.
+  induction l as [|y l IH]; intro H; cbn [index_of app length].
+  - rewrite N.eqb_refl. reflexivity.
+  - destruct (N.eqb_spec x y); [exfalso; apply H; left; congruence|].
+    rewrite IH; [reflexivity | intro; apply H; right; assumption].
+Qed.
+
+Lemma index_of_nth_NoDup l : NoDup l -> forall i x, nth_error l i = Some x -> index_of x l = Some i.
+Proof.
+  induction 1 as [|y l Hy Hnd IH]; intros i x H; [destruct i; discriminate|].
+  destruct i as [|i]; cbn [nth_error] in H; cbn [index_of].
+  - inversion H. subst. rewrite N.eqb_refl. reflexivity.
+  - destruct (N.eqb_spec x y); [subst; exfalso; apply Hy; eapply nth_error_In; exact H|].
+    rewrite (IH i x H). reflexivity.
+Qed.
+
+Lemma existsb_Neqb_In x l : existsb (N.eqb x) l = true <-> In x l.
+Proof.
+  rewrite existsb_exists. split.
+  - intros [y [Hy E]]. apply N.eqb_eq in E. subst. exact Hy.
+  - intro H. exists x. split; [exact H | apply N.eqb_refl].
+Qed.
+
+Lemma add_id_cases acc x : (In x acc /\ add_id acc x = acc) \/ (~ In x acc /\ add_id acc x = acc ++ [x]).
+Proof.
+  unfold add_id. destruct (existsb (N.eqb x) acc) eqn:E.
+  - left. split; [apply existsb_Neqb_In, E | reflexivity].
+  - right. split; [|reflexivity]. intro H. apply existsb_Neqb_In in H. congruence.
+Qed.
+
+Lemma add_id_In acc x y : In y (add_id acc x) <-> In y acc \/ y = x.
+Proof.
+  destruct (add_id_cases acc x) as [[H E]|[H E]]; rewrite E.
+  - split; [tauto|]. intros [H'|H']; [exact H' | subst; exact H].
+  - rewrite in_app_iff. cbn [In]. split; [intros [?|[?|[]]]; [left | right]; congruence + assumption | intros [?|?]; [left | right; left]; congruence + assumption].
+Qed.
+
+Lemma NoDup_app_snoc {A} (l : list A) x : NoDup l -> ~ In x l -> NoDup (l ++ [x]).
+Proof.
+  induction l as [|y l IH]; intros Hn Hx; cbn [app]; [constructor; [intros [] | constructor]|].
+  inversion Hn as [|? ? Hy Hn']; subst. constructor.
+  - rewrite in_app_iff. cbn [In]. intros [H|[H|[]]]; [contradiction | subst; apply Hx; left; reflexivity].
+  - apply IH; [exact Hn' | intro; apply Hx; right; assumption].
+Qed.
+
+Lemma add_id_NoDup acc x : NoDup acc -> NoDup (add_id acc x).
+Proof.
+  intro Hn. destruct (add_id_cases acc x) as [[H E]|[H E]]; rewrite E; [exact Hn|].
+  apply NoDup_app_snoc; assumption.
+Qed.
+
+Lemma addl_In xs : forall acc y, In y (addl xs acc) <-> In y acc \/ In y xs.
+Proof.
+  unfold addl. induction xs as [|x xs IH]; intros acc y; cbn [fold_left In]; [tauto|].
+  rewrite IH, add_id_In. split; [intros [[?|?]|?] | intros [?|[?|?]]]; subst; tauto.
+Qed.
+
+Lemma addl_NoDup xs : forall acc, NoDup acc -> NoDup (addl xs acc).
+Proof.
+  unfold addl. induction xs as [|x xs IH]; intros acc H; cbn [fold_left]; [exact H|]. apply IH, add_id_NoDup, H.
+Qed.
+
+Lemma add_id_prefix acc x : exists ext, add_id acc x = acc ++ ext.
+Proof.
+  destruct (add_id_cases acc x) as [[_ E]|[_ E]]; rewrite E; [exists []; rewrite app_nil_r; reflexivity | exists [x]; reflexivity].
+Qed.
+
+Lemma addl_prefix xs : forall acc, exists ext, addl xs acc = acc ++ ext.
+Proof.
+  unfold addl. induction xs as [|x xs IH]; intro acc; cbn [fold_left]; [exists []; rewrite app_nil_r; reflexivity|].
+  destruct (add_id_prefix acc x) as [e1 E1]. destruct (IH (add_id acc x)) as [e2 E2].
+  exists (e1 ++ e2). rewrite E2, E1, app_assoc. reflexivity.
+Qed.
+
+Lemma addl_index_stable xs acc x i : index_of x acc = Some i -> index_of x (addl xs acc) = Some i.
+Proof.
+  intro H. destruct (addl_prefix xs acc) as [ext E]. rewrite E. apply index_of_app_l, H.
+Qed.
+
+Lemma addl_cons x xs acc : addl (x :: xs) acc = addl xs (add_id acc x).
+Proof. reflexivity. Qed.
+
+Ltac splits := repeat match goal with |- _ /\ _ => split end.
+
+(* ---------------------------------------------------------------------------------------------- *)
+(* pad_matrix: what the loop computes *)
+Fixpoint lastcell (n : nat) (F T : list N) (s : pairs) (i j : nat) : option Z :=
+  match s with
+  | [] => None
+  | p :: r =>
+      match lastcell n F T r i j with
+      | Some w => Some w
+      | None =>
+          match index_of (p_from p) F, index_of (p_to p) T with
+          | Some a, Some b => if (i =? a) && (j =? n + b) then Some (p_w p) else None
+          | _, _ => None
+          end
+      end
+  end.
+
+Lemma pad_step_spec n cols st p st' :
+  pad_step n cols st p = Some st' ->
+  ~ In (p_to p) (add_id (ps_F st) (p_from p)) ->
+  ps_F st' = add_id (ps_F st) (p_from p) /\ ps_T st' = add_id (ps_T st) (p_to p) /\
+  p_from p <> 0%N /\ p_to p <> 0%N /\
+  exists row col, index_of (p_from p) (ps_F st') = Some row /\ index_of (p_to p) (ps_T st') = Some col /\
+                  row < n /\ col < cols /\ ps_m st' = mset (ps_m st) row (n + col) (p_w p) /\
+                  (length (ps_F st) <= n -> length (ps_F st') <= n) /\ length (ps_T st') <= S (Nat.max col (length (ps_T st) - 1)).
+Proof.
+  unfold pad_step. set (f := p_from p). set (t := p_to p). set (F := ps_F st). set (T := ps_T st).
+  destruct (N.eqb_spec f 0) as [Ef|Ef]; cbn [orb]; [discriminate|].
+  destruct (N.eqb_spec t 0) as [Et|Et]; [discriminate|].
+  unfold r_index at 1.
+  destruct (index_of f F) as [r|] eqn:EF.
+  - (* known detection *)
+    assert (In f F) as HfF by (eapply nth_error_In, index_of_Some, EF).
+    destruct (add_id_cases F f) as [[_ EA]|[HA _]]; [|contradiction]. rewrite EA.
+    intros H Hnt. unfold r_index in H.
+    assert (index_of t F = None) as EtF by (apply index_of_None; exact Hnt). rewrite EtF in H.
+    destruct (index_of t T) as [c|] eqn:ET; cbn [option_map] in H.
+    + assert (In t T) as HtT by (eapply nth_error_In, index_of_Some, ET).
+      destruct (add_id_cases T t) as [[_ EB]|[HB _]]; [|contradiction]. rewrite EB.
+      destruct (r <? n) eqn:Er; cbn [andb] in H; [|discriminate].
+      destruct (n + c <? n + cols) eqn:Ec; [|discriminate]. inversion H; subst st'; cbn [ps_F ps_T ps_m].
+      apply Nat.ltb_lt in Er, Ec. repeat split; try assumption. exists r, c. repeat split; try assumption; try lia.
+      all: try (assert (c < length T) by (apply nth_error_Some; rewrite (index_of_Some _ _ _ ET); discriminate); lia).
+    + assert (~ In t T) as HtT by (apply index_of_None, ET).
+      destruct (add_id_cases T t) as [[HB _]|[_ EB]]; [contradiction|]. rewrite EB.
+      destruct (r <? n) eqn:Er; cbn [andb] in H; [|discriminate].
+      destruct (n + length T <? n + cols) eqn:Ec; [|discriminate]. inversion H; subst st'; cbn [ps_F ps_T ps_m].
+      apply Nat.ltb_lt in Er, Ec. repeat split; try assumption. exists r, (length T).
+      rewrite index_of_snoc_new by exact HtT. repeat split; try assumption; try lia.
+      all: try (rewrite app_length; cbn [length]; lia).
+  - assert (~ In f F) as HfF by (apply index_of_None, EF).
+    destruct (add_id_cases F f) as [[HA _]|[_ EA]]; [contradiction|]. rewrite EA.
+    destruct (index_of f T) as [c0|] eqn:EfT; cbn [option_map].
+    + (* `from` collides with a track id: row >= n *)
+      intros H _. exfalso.
+      destruct (r_index n F T t) as [c|]; cbn [fst snd] in H;
+        (replace (n + c0 <? n) with false in H by (symmetry; apply Nat.ltb_ge; lia)); cbn [andb] in H; discriminate.
+    + destruct (length F <? n) eqn:El; [|discriminate].
+      intros H Hnt. unfold r_index in H.
+      assert (index_of t (F ++ [f]) = None) as EtF by (apply index_of_None; exact Hnt). rewrite EtF in H.
+      apply Nat.ltb_lt in El.
+      destruct (index_of t T) as [c|] eqn:ET; cbn [option_map] in H.
+      * assert (In t T) as HtT by (eapply nth_error_In, index_of_Some, ET).
+        destruct (add_id_cases T t) as [[_ EB]|[HB _]]; [|contradiction]. rewrite EB.
+        replace (length F <? n) with true in H by (symmetry; apply Nat.ltb_lt; exact El). cbn [andb] in H.
+        destruct (n + c <? n + cols) eqn:Ec; [|discriminate]. inversion H; subst st'; cbn [ps_F ps_T ps_m].
+        apply Nat.ltb_lt in Ec. repeat split; try assumption. exists (length F), c.
+        rewrite index_of_snoc_new by exact HfF. repeat split; try assumption; try lia.
+        all: try (rewrite app_length; cbn [length]; lia).
+        all: try (assert (c < length T) by (apply nth_error_Some; rewrite (index_of_Some _ _ _ ET); discriminate); lia).
+      * assert (~ In t T) as HtT by (apply index_of_None, ET).
+        destruct (add_id_cases T t) as [[HB _]|[_ EB]]; [contradiction|]. rewrite EB.
+        replace (length F <? n) with true in H by (symmetry; apply Nat.ltb_lt; exact El). cbn [andb] in H.
+        destruct (n + length T <? n + cols) eqn:Ec; [|discriminate]. inversion H; subst st'; cbn [ps_F ps_T ps_m].
+        apply Nat.ltb_lt in Ec. repeat split; try assumption. exists (length F), (length T).
+        rewrite !index_of_snoc_new by assumption. repeat split; try assumption; try lia.
+        all: try (rewrite !app_length; cbn [length]; lia).
+Qed.
+
+Lemma pad_run_spec n cols s : forall st st',
+  pad_run n cols st s = Some st' ->
+  dims n (n + cols) (ps_m st) -> length (ps_F st) <= n -> length (ps_T st) <= cols ->
+  (forall p, In p s -> ~ In (p_to p) (addl (map p_from s) (ps_F st))) ->
+  ps_F st' = addl (map p_from s) (ps_F st) /\ ps_T st' = addl (map p_to s) (ps_T st) /\
+  dims n (n + cols) (ps_m st') /\ length (ps_F st') <= n /\ length (ps_T st') <= cols /\
+  (forall p, In p s -> p_from p <> 0%N /\ p_to p <> 0%N) /\
+  forall i j, i < n -> j < n + cols ->
+    mget (ps_m st') i j = match lastcell n (ps_F st') (ps_T st') s i j with
+                          | Some w => w
+                          | None => mget (ps_m st) i j
+                          end.
+Proof.
+  induction s as [|p r IH]; intros st st' Hrun Hd HF HT Hdisj.
+  - cbn [pad_run] in Hrun. inversion Hrun; subst st'. cbn [map addl fold_left lastcell].
+    splits; try assumption; try (intros ? []); try (intros; reflexivity).
+  - cbn [pad_run] in Hrun. destruct (pad_step n cols st p) as [st1|] eqn:Es; [|discriminate].
+    rewrite !map_cons, !addl_cons in *.
+    assert (~ In (p_to p) (add_id (ps_F st) (p_from p))) as Hnt.
+    { intro H. apply (Hdisj p (or_introl eq_refl)). apply addl_In. left. exact H. }
+    destruct (pad_step_spec _ _ _ _ _ Es Hnt) as [EF1 [ET1 [Hf0 [Ht0 [row [col [Ir [Ic [Hr [Hc [Em [HF1 HT1]]]]]]]]]]]].
+    assert (dims n (n + cols) (ps_m st1)) as Hd1 by (rewrite Em; apply mset_dims, Hd).
+    assert (length (ps_T st1) <= cols) as HT1' by lia.
+    destruct (IH st1 st' Hrun Hd1 (HF1 HF) HT1') as [EF [ET [Hd' [HF' [HT' [Hnz Hcell]]]]]].
+    { intros p' Hp'. rewrite EF1. apply Hdisj. right. exact Hp'. }
+    rewrite <- EF1, <- ET1. splits; try assumption.
+    + intros p' [H|H]; [subst; split; assumption | apply (Hnz _ H)].
+    + intros i j Hi Hj. rewrite (Hcell i j Hi Hj). cbn [lastcell].
+      destruct (lastcell n (ps_F st') (ps_T st') r i j) as [w|]; [reflexivity|].
+      rewrite EF, ET. rewrite (addl_index_stable _ _ _ _ Ir), (addl_index_stable _ _ _ _ Ic).
+      rewrite Em. rewrite (mget_mset n (n + cols)); [destruct ((i =? row) && (j =? n + col)); reflexivity | exact Hd | exact Hr | lia].
+Qed.
+
+Lemma set_diag_spec thr n c m :
+  dims n c m -> n <= c ->
+  dims n c (set_diag thr n m) /\
+  forall i j, i < n -> mget (set_diag thr n m) i j = if i =? j then thr else mget m i j.
+Proof.
+  intros Hd Hnc. unfold set_diag.
+  assert (forall l m0, dims n c m0 -> (forall k, In k l -> k < n) ->
+            dims n c (fold_left (fun m i => mset m i i thr) l m0) /\
+            forall i j, mget (fold_left (fun m i => mset m i i thr) l m0) i j
+                        = if (i =? j) && existsb (Nat.eqb i) l then thr else mget m0 i j) as H.
+  { induction l as [|k l IH]; intros m0 Hd0 Hl; cbn [fold_left existsb].
+    - split; [exact Hd0|]. intros. rewrite andb_false_r. reflexivity.
+    - assert (k < n) as Hk by (apply Hl; left; reflexivity).
+      destruct (IH (mset m0 k k thr)) as [D C]; [apply mset_dims, Hd0 | intros; apply Hl; right; assumption|].
+      split; [exact D|]. intros i j. rewrite C. rewrite (mget_mset n c); [|exact Hd0 | exact Hk | lia].
+      destruct (Nat.eqb_spec i j) as [E|E]; cbn [andb]; [|destruct (Nat.eqb_spec i k), (Nat.eqb_spec j k); cbn [andb]; try reflexivity; lia].
+      subst j. destruct (existsb (Nat.eqb i) l); [rewrite orb_true_r; reflexivity|].
+      rewrite orb_false_r. destruct (i =? k); reflexivity. }
+  destruct (H (seq 0 n) m Hd) as [D C]; [intros k Hk; apply in_seq in Hk; lia|].
+  split; [exact D|]. intros i j Hi. rewrite C.
+  replace (existsb (Nat.eqb i) (seq 0 n)) with true; [rewrite andb_true_r; reflexivity|].
+  symmetry. apply existsb_exists. exists i. split; [apply in_seq; lia | apply Nat.eqb_refl].
+Qed.
+
+Definition ids_disj (s : pairs) : Prop := forall p p', In p s -> In p' s -> p_from p <> p_to p'.
+
+Lemma froms_In s x : In x (froms s) <-> exists p, In p s /\ p_from p = x.
+Proof.
+  unfold froms. rewrite addl_In, in_map_iff. cbn [In]. split; [intros [[]|[p [E H]]]; exists p; tauto | intros [p [H E]]; right; exists p; tauto].
+Qed.
+
+Lemma tos_In s x : In x (tos s) <-> exists p, In p s /\ p_to p = x.
+Proof.
+  unfold tos. rewrite addl_In, in_map_iff. cbn [In]. split; [intros [[]|[p [E H]]]; exists p; tauto | intros [p [H E]]; right; exists p; tauto].
+Qed.
+
+Lemma froms_NoDup s : NoDup (froms s).
+Proof. apply addl_NoDup. constructor. Qed.
+Lemma tos_NoDup s : NoDup (tos s).
+Proof. apply addl_NoDup. constructor. Qed.
+
+(* the declarative reading of the padded matrix *)
+Definition spec_cell (thr : Z) (n : nat) (s : pairs) (i j : nat) : Z :=
+  if i =? j then thr
+  else match lastcell n (froms s) (tos s) s i j with Some w => w | None => 0%Z end.
+
+Lemma pad_matrix_spec thr n cols s m idx :
+  pad_matrix thr n cols s = Some (m, idx) -> ids_disj s ->
+  idx = tracks_index n (froms s) (tos s) /\ length (froms s) <= n /\ length (tos s) <= cols /\
+  dims n (n + cols) m /\ (forall p, In p s -> p_from p <> 0%N /\ p_to p <> 0%N) /\
+  forall i j, i < n -> j < n + cols -> mget m i j = spec_cell thr n s i j.
+Proof.
+  unfold pad_matrix. intros H Hdisj.
+  destruct (pad_run n cols _ s) as [st|] eqn:Er; [|discriminate]. inversion H; subst m idx. clear H.
+  destruct (pad_run_spec n cols s _ _ Er) as [EF [ET [Hd [HF [HT [Hnz Hcell]]]]]]; cbn [ps_F ps_T ps_m length].
+  - apply mzero_dims.
+  - lia.
+  - lia.
+  - intros p Hp Hin. apply (froms_In s) in Hin. destruct Hin as [p' [Hp' E]]. apply (Hdisj p' p Hp' Hp). exact E.
+  - cbn [ps_F ps_T ps_m] in *. fold (froms s) in EF. fold (tos s) in ET. rewrite EF, ET in *.
+    destruct (set_diag_spec thr n (n + cols) (ps_m st) Hd ltac:(lia)) as [D C].
+    splits; try assumption; try reflexivity.
+    intros i j Hi Hj. rewrite (C i j Hi). unfold spec_cell. destruct (i =? j); [reflexivity|].
+    rewrite (Hcell i j Hi Hj). rewrite mget_mzero. reflexivity.
+Qed.
+
+Lemma lastcell_lastw n F T s i b f t :
+  NoDup F -> NoDup T -> nth_error F i = Some f -> nth_error T b = Some t ->
+  lastcell n F T s i (n + b) = lastw s f t.
+Proof.
+  intros HF HT Hf Ht. induction s as [|p r IH]; [reflexivity|].
+  cbn [lastcell lastw]. rewrite IH. destruct (lastw r f t); [reflexivity|].
+  destruct (N.eqb_spec (p_from p) f) as [Ef|Ef]; cbn [andb].
+  - rewrite Ef, (index_of_nth_NoDup F HF i f Hf).
+    destruct (N.eqb_spec (p_to p) t) as [Et|Et].
+    + rewrite Et, (index_of_nth_NoDup T HT b t Ht). rewrite !Nat.eqb_refl. reflexivity.
+    + destruct (index_of (p_to p) T) as [b'|] eqn:Eb; [|reflexivity].
+      destruct (Nat.eqb_spec (n + b) (n + b')) as [E|E]; [|rewrite andb_false_r; reflexivity].
+      exfalso. assert (b = b') by lia. subst b'. apply index_of_Some in Eb. congruence.
+  - destruct (index_of (p_from p) F) as [a|] eqn:Ea; [|reflexivity].
+    destruct (index_of (p_to p) T) as [b'|]; [|reflexivity].
+    destruct (Nat.eqb_spec i a) as [E|E]; [|reflexivity].
+    exfalso. subst a. apply index_of_Some in Ea. congruence.
+Qed.
+
+Lemma lastcell_Some_inv n F T s i j : forall w,
+  lastcell n F T s i j = Some w ->
+  exists f t b, j = n + b /\ nth_error F i = Some f /\ nth_error T b = Some t.
+Proof.
+  induction s as [|p r IH]; intro w; cbn [lastcell]; [discriminate|].
+  destruct (lastcell n F T r i j) as [w'|]; [intros _; apply (IH w'); reflexivity|].
+  destruct (index_of (p_from p) F) as [a|] eqn:Ea; [|discriminate].
+  destruct (index_of (p_to p) T) as [b|] eqn:Eb; [|discriminate].
+  destruct (Nat.eqb_spec i a); cbn [andb]; [|discriminate].
+  destruct (Nat.eqb_spec j (n + b)); [|discriminate]. intros _. subst.
+  exists (p_from p), (p_to p), b. splits; [reflexivity | apply index_of_Some, Ea | apply index_of_Some, Eb].
+Qed.
+
+Lemma lastw_Some_In s f t : forall w, lastw s f t = Some w -> exists p, In p s /\ p_from p = f /\ p_to p = t.
+Proof.
+  induction s as [|p r IH]; intro w; cbn [lastw]; [discriminate|].
+  destruct (lastw r f t) as [w'|].
+  - intros _. destruct (IH w' eq_refl) as [p' [H1 H2]]. exists p'. split; [right; exact H1 | exact H2].
+  - destruct (N.eqb_spec (p_from p) f); cbn [andb]; [|discriminate].
+    destruct (N.eqb_spec (p_to p) t); [|discriminate]. intros _. exists p. split; [left; reflexivity | tauto].
+Qed.
+
+Lemma ncols_dims n c m : dims n c m -> 0 < n -> ncols m = c.
+Proof.
+  intros [Hr Hc] Hn. unfold ncols. specialize (Hc 0 Hn). destruct m; [cbn in Hr; lia | exact Hc].
+Qed.
+
+Lemma NoDup_map_inj_on {A B} (g : A -> B) l :
+  NoDup l -> (forall x y, In x l -> In y l -> g x = g y -> x = y) -> NoDup (map g l).
+Proof.
+  induction 1 as [|a l Ha Hnd IH]; intro Hinj; cbn [map]; constructor.
+  - intro Hin. apply in_map_iff in Hin. destruct Hin as [y [E Hy]].
+    assert (y = a) by (apply Hinj; [right; exact Hy | left; reflexivity | exact E]). subst. contradiction.
+  - apply IH. intros x y Hx Hy. apply Hinj; right; assumption.
+Qed.
+
+Lemma fold_right_zsum {A} (h : A -> Z) (l : list A) d :
+  fold_right (fun e acc => (h e + acc)%Z) 0%Z l = zsum (fun i => h (nth i l d)) (seq 0 (length l)).
+Proof.
+  induction l as [|x l IH]; [reflexivity|].
+  cbn [fold_right length seq]. rewrite zsum_cons. cbn [nth]. rewrite IH.
+  rewrite <- seq_shift, zsum_map. reflexivity.
+Qed.
+
+Lemma nth_map_seq (g : nat -> nat) n i : i < n -> nth i (map g (seq 0 n)) O = g i.
+Proof.
+  intro Hi. rewrite (nth_indep _ O (g O)); [|rewrite map_length, seq_length; exact Hi].
+  rewrite map_nth, seq_nth by exact Hi. reflexivity.
+Qed.
+
+Lemma flat_map_nil {A B} (f : A -> list B) l : (forall x, In x l -> f x = []) -> flat_map f l = [].
+Proof.
+  induction l as [|x l IH]; intro H; [reflexivity|]. cbn [flat_map].
+  rewrite (H x) by (left; reflexivity). rewrite IH; [reflexivity | intros; apply H; right; assumption].
+Qed.
+
+Lemma flat_map_map_in {A B} (f : A -> list B) (g : A -> B) l :
+  (forall x, In x l -> f x = [g x]) -> flat_map f l = map g l.
+Proof.
+  induction l as [|x l IH]; intro H; [reflexivity|]. cbn [flat_map map].
+  rewrite (H x) by (left; reflexivity). rewrite IH; [reflexivity | intros; apply H; right; assumption].
+Qed.
+
+Lemma seq_split n k : k <= n -> seq 0 n = seq 0 k ++ seq k (n - k).
+Proof. intro H. replace n with (k + (n - k)) at 1 by lia. apply seq_app. Qed.
+
+(* ---------------------------------------------------------------------------------------------- *)
+(* optimal assignments of the padded matrix *)
+Section Padded.
+  Variables (thr : Z) (n cols : nat) (s : pairs) (m : matrix).
+  Hypothesis Hthr : (0 < thr)%Z.
+  Hypothesis Hdisj : ids_disj s.
+  Hypothesis Hnz : forall p, In p s -> p_from p <> 0%N /\ p_to p <> 0%N.
+  Hypothesis HF : length (froms s) <= n.
+  Hypothesis HT : length (tos s) <= cols.
+  Hypothesis Hd : dims n (n + cols) m.
+  Hypothesis Hcell : forall i j, i < n -> j < n + cols -> mget m i j = spec_cell thr n s i j.
+
+  Let F := froms s.
+  Let T := tos s.
+  Let k := length F.
+
+  Lemma cell_diag i : i < n -> mget m i i = thr.
+  Proof. intro Hi. rewrite Hcell by lia. unfold spec_cell. rewrite Nat.eqb_refl. reflexivity. Qed.
+
+  Lemma cell_left i j : i < n -> j < n -> i <> j -> mget m i j = 0%Z.
+  Proof.
+    intros Hi Hj Hij. rewrite Hcell by lia. unfold spec_cell.
+    destruct (Nat.eqb_spec i j); [contradiction|].
+    destruct (lastcell n (froms s) (tos s) s i j) as [w|] eqn:E; [|reflexivity].
+    destruct (lastcell_Some_inv _ _ _ _ _ _ _ E) as [f [t [b [Ej _]]]]. lia.
+  Qed.
+
+  Lemma cell_right i b f t :
+    nth_error F i = Some f -> nth_error T b = Some t -> b < cols ->
+    mget m i (n + b) = match lastw s f t with Some w => w | None => 0%Z end.
+  Proof.
+    intros Hf Ht Hb.
+    assert (i < k) as Hi by (apply nth_error_Some; rewrite Hf; discriminate). unfold k, F in Hi.
+    rewrite Hcell by lia. unfold spec_cell. destruct (Nat.eqb_spec i (n + b)); [lia|].
+    rewrite (lastcell_lastw n _ _ s i b f t (froms_NoDup s) (tos_NoDup s) Hf Ht). reflexivity.
+  Qed.
+
+  Lemma cell_nonzero i j :
+    i < n -> j < n + cols -> i <> j -> mget m i j <> 0%Z ->
+    exists f t b w, j = n + b /\ nth_error F i = Some f /\ nth_error T b = Some t /\
+                    lastw s f t = Some w /\ mget m i j = w.
+  Proof.
+    intros Hi Hj Hij Hne. rewrite Hcell in * by lia. unfold spec_cell in *.
+    destruct (Nat.eqb_spec i j); [contradiction|].
+    destruct (lastcell n (froms s) (tos s) s i j) as [w|] eqn:E; [|congruence].
+    destruct (lastcell_Some_inv _ _ _ _ _ _ _ E) as [f [t [b [Ej [Hf Ht]]]]]. subst j.
+    exists f, t, b, w. splits; try assumption; try reflexivity.
+    rewrite (lastcell_lastw n _ _ s i b f t (froms_NoDup s) (tos_NoDup s) Hf Ht) in E. exact E.
+  Qed.
+
+  Lemma F_T_disjoint f : In f F -> In f T -> False.
+  Proof.
+    intros H1 H2. apply froms_In in H1. apply tos_In in H2.
+    destruct H1 as [p [Hp Ep]], H2 as [p' [Hp' Ep']]. apply (Hdisj p p' Hp Hp'). congruence.
+  Qed.
+
+  Lemma F_nonzero f : In f F -> f <> 0%N.
+  Proof. intro H. apply froms_In in H. destruct H as [p [Hp E]]. subst. apply Hnz, Hp. Qed.
+  Lemma T_nonzero t : In t T -> t <> 0%N.
+  Proof. intro H. apply tos_In in H. destruct H as [p [Hp E]]. subst. apply Hnz, Hp. Qed.
+
+  (* --- normal form --- *)
+  Definition keep (a : list nat) (i : nat) : bool :=
+    (n <=? nth i a O) && (thr <=? mget m i (nth i a O))%Z.
+  Definition norm (a : list nat) : list nat :=
+    map (fun i => if keep a i then nth i a O else i) (seq 0 n).
+
+  Lemma nth_norm a i : i < n -> nth i (norm a) O = if keep a i then nth i a O else i.
+  Proof.
+    intro Hi. unfold norm. apply (nth_map_seq (fun i => if keep a i then nth i a O else i) n i Hi).
+  Qed.
+
+  Lemma norm_assignment a : is_assignment n (n + cols) a -> is_assignment n (n + cols) (norm a).
+  Proof.
+    intros [Hl [Hnd Hr]]. unfold is_assignment. splits.
+    - unfold norm. rewrite map_length, seq_length. reflexivity.
+    - unfold norm. apply NoDup_map_inj_on; [apply seq_NoDup|].
+      intros x y Hx Hy E. apply in_seq in Hx, Hy.
+      destruct (keep a x) eqn:Kx, (keep a y) eqn:Ky.
+      + rewrite (NoDup_nth a O) in Hnd. apply Hnd; [lia | lia | exact E].
+      + unfold keep in Kx. apply andb_true_iff in Kx. destruct Kx as [Kx _]. apply Nat.leb_le in Kx. lia.
+      + unfold keep in Ky. apply andb_true_iff in Ky. destruct Ky as [Ky _]. apply Nat.leb_le in Ky. lia.
+      + exact E.
+    - intros j Hj. unfold norm in Hj. apply in_map_iff in Hj. destruct Hj as [i [E Hi]]. apply in_seq in Hi.
+      destruct (keep a i); subst j; [apply Hr, nth_In; lia | lia].
+  Qed.
+
+  Lemma norm_pointwise a i :
+    is_assignment n (n + cols) a -> i < n ->
+    (mget m i (nth i a O) <= mget m i (nth i (norm a) O))%Z /\
+    (mget m i (nth i a O) = mget m i (nth i (norm a) O) ->
+     nth i a O = i \/ (n <= nth i a O /\ (thr <= mget m i (nth i a O))%Z)).
+  Proof.
+    intros [Hl [Hnd Hr]] Hi. rewrite (nth_norm a i Hi).
+    assert (nth i a O < n + cols) as Hj by (apply Hr, nth_In; lia).
+    destruct (keep a i) eqn:K.
+    - unfold keep in K. apply andb_true_iff in K. destruct K as [K1 K2]. apply Nat.leb_le in K1. apply Z.leb_le in K2.
+      split; [lia | intros _; right; split; assumption].
+    - rewrite (cell_diag i Hi).
+      destruct (Nat.eq_dec (nth i a O) i) as [E|E]; [rewrite E, (cell_diag i Hi); split; [lia | intros _; left; reflexivity]|].
+      destruct (Nat.lt_ge_cases (nth i a O) n) as [Hlt|Hge].
+      + rewrite (cell_left i _ Hi Hlt) by lia. split; lia.
+      + unfold keep in K. apply andb_false_iff in K. destruct K as [K|K]; [apply Nat.leb_gt in K; lia|].
+        apply Z.leb_gt in K. split; lia.
+  Qed.
+
+  Lemma aweight_index a : aweight m a = zsum (fun i => mget m i (nth i a O)) (seq 0 n).
+  Proof. unfold aweight. destruct Hd as [Hr _]. rewrite Hr. reflexivity. Qed.
+
+  Lemma is_assignment_cols a : 0 < n -> (is_assignment (length m) (ncols m) a <-> is_assignment n (n + cols) a).
+  Proof. intro Hn. rewrite (ncols_dims _ _ _ Hd Hn). destruct Hd as [Hr _]. rewrite Hr. tauto. Qed.
+
+  Lemma optimal_normal a :
+    is_assignment n (n + cols) a -> optimal m a ->
+    forall i, i < n -> nth i a O = i \/ (n <= nth i a O /\ (thr <= mget m i (nth i a O))%Z).
+  Proof.
+    intros Ha Hopt i Hi.
+    assert (0 < n) as Hn by lia.
+    pose proof (norm_assignment a Ha) as Hna.
+    assert (aweight m (norm a) <= aweight m a)%Z as H1 by (apply Hopt, is_assignment_cols; assumption).
+    rewrite !aweight_index in H1.
+    assert (zsum (fun i => mget m i (nth i a O)) (seq 0 n) <= zsum (fun i => mget m i (nth i (norm a) O)) (seq 0 n))%Z as H2.
+    { apply zsum_le. intros x Hx. apply in_seq in Hx. apply norm_pointwise; [exact Ha | lia]. }
+    assert (mget m i (nth i a O) = mget m i (nth i (norm a) O)) as E.
+    { apply (zsum_eq_pointwise (fun i => mget m i (nth i a O)) (fun i => mget m i (nth i (norm a) O)) (seq 0 n)); [|lia | apply in_seq; lia].
+      intros x Hx. apply in_seq in Hx. apply norm_pointwise; [exact Ha | lia]. }
+    apply (norm_pointwise a i Ha Hi), E.
+  Qed.
+
+  (* rows without a detection sit on their own column *)
+  Lemma optimal_empty_rows a :
+    is_assignment n (n + cols) a -> optimal m a -> forall i, k <= i < n -> nth i a O = i.
+  Proof.
+    intros Ha Hopt i [Hk Hi]. destruct (optimal_normal a Ha Hopt i Hi) as [E|[Hge Hw]]; [exact E|].
+    exfalso. assert (nth i a O < n + cols) as Hj by (destruct Ha as [Hl [_ Hr]]; apply Hr, nth_In; lia).
+    assert (mget m i (nth i a O) <> 0%Z) as Hne by lia.
+    destruct (cell_nonzero i _ Hi Hj ltac:(lia) Hne) as [f [t [b [w [_ [Hf _]]]]]].
+    assert (i < k) by (apply nth_error_Some; rewrite Hf; discriminate). lia.
+  Qed.
+
+  (* --- decoding --- *)
+  Definition idx : list N := tracks_index n F T.
+
+  Lemma idx_length : length idx = n + length T.
+  Proof. unfold idx, tracks_index. rewrite !app_length, repeat_length. fold k. unfold k, F. lia. Qed.
+
+  Lemma idx_F i : i < k -> nth i idx 0%N = nth i F 0%N.
+  Proof. intro Hi. unfold idx, tracks_index. rewrite app_nth1 by exact Hi. reflexivity. Qed.
+
+  Lemma idx_zero i : k <= i < n -> nth i idx 0%N = 0%N.
+  Proof.
+    intros [H1 H2]. unfold idx, tracks_index. rewrite app_nth2 by exact H1. fold k.
+    rewrite app_nth1 by (rewrite repeat_length; lia). apply nth_repeat.
+  Qed.
+
+  Lemma idx_T b : nth (n + b) idx 0%N = nth b T 0%N.
+  Proof.
+    unfold idx, tracks_index. rewrite app_nth2 by (fold k; unfold k, F; lia). fold k.
+    rewrite app_nth2 by (rewrite repeat_length; unfold k, F; lia). rewrite repeat_length.
+    f_equal. unfold k, F. lia.
+  Qed.
+
+  Lemma nth_F_In i : i < k -> In (nth i F 0%N) F.
+  Proof. intro Hi. apply nth_In. exact Hi. Qed.
+
+  Definition wentry (a : list nat) (i : nat) : N * N :=
+    (nth i F 0%N, if nth i a O =? i then nth i F 0%N else nth (nth i a O - n) T 0%N).
+
+  Definition normal (a : list nat) : Prop :=
+    forall i, i < n -> nth i a O = i \/ (n <= nth i a O /\ (thr <= mget m i (nth i a O))%Z).
+
+  (* a row that sits on a gated edge: the edge is a stream pair with that weight *)
+  Lemma normal_right a i :
+    is_assignment n (n + cols) a -> normal a -> i < n -> nth i a O <> i ->
+    exists f t b w, nth i a O = n + b /\ nth_error F i = Some f /\ nth_error T b = Some t /\
+                    lastw s f t = Some w /\ mget m i (nth i a O) = w /\ (thr <= w)%Z /\ i < k /\ b < length T.
+  Proof.
+    intros [Hl [Hnd Hr]] Hn Hi Hne. destruct (Hn i Hi) as [E|[Hge Hw]]; [contradiction|].
+    assert (nth i a O < n + cols) as Hj by (apply Hr, nth_In; lia).
+    destruct (cell_nonzero i _ Hi Hj ltac:(lia) ltac:(lia)) as [f [t [b [w [Ej [Hf [Ht [Hw' Em]]]]]]]].
+    exists f, t, b, w. splits; try assumption; try lia.
+    - apply nth_error_Some. rewrite Hf. discriminate.
+    - apply nth_error_Some. rewrite Ht. discriminate.
+  Qed.
+
+  Lemma normal_empty a i : is_assignment n (n + cols) a -> normal a -> k <= i < n -> nth i a O = i.
+  Proof.
+    intros Ha Hn [Hk Hi]. destruct (Nat.eq_dec (nth i a O) i) as [E|E]; [exact E|].
+    destruct (normal_right a i Ha Hn Hi E) as [f [t [b [w [_ [_ [_ [_ [_ [_ [H _]]]]]]]]]]]. lia.
+  Qed.
+
+  Lemma decode_normal a :
+    is_assignment n (n + cols) a -> normal a ->
+    decode idx a = Some (map (wentry a) (seq 0 k)).
+  Proof.
+    intros Ha Hn. pose proof Ha as [Hl [Hnd Hr]]. unfold decode.
+    assert (forallb (fun e => e <? length idx) a = true) as H1.
+    { apply forallb_forall. intros e He. apply Nat.ltb_lt. rewrite idx_length.
+      destruct (In_nth _ _ O He) as [i [Hi Ei]]. rewrite Hl in Hi.
+      destruct (Nat.eq_dec (nth i a O) i) as [E|E]; [lia|].
+      destruct (normal_right a i Ha Hn Hi E) as [f [t [b [w [Ej [_ [_ [_ [_ [_ [_ Hb]]]]]]]]]]]. lia. }
+    rewrite H1. replace (length a <=? length idx) with true by (symmetry; apply Nat.leb_le; rewrite idx_length; lia).
+    cbn [andb]. f_equal. rewrite Hl. rewrite (seq_split n k) by (unfold k, F; exact HF).
+    rewrite flat_map_app.
+    rewrite (flat_map_nil _ (seq k (n - k))).
+    2:{ intros i Hi. apply in_seq in Hi. cbn zeta. rewrite idx_zero by lia. reflexivity. }
+    rewrite app_nil_r.
+    apply flat_map_map_in. intros i Hi. apply in_seq in Hi. cbn zeta.
+    assert (i < k) as Hik by lia. assert (i < n) as Hin by (unfold k, F in *; lia).
+    rewrite (idx_F i Hik).
+    assert (nth i F 0%N <> 0%N) as Hf0 by (apply F_nonzero, nth_F_In, Hik).
+    unfold wentry. destruct (Nat.eqb_spec (nth i a O) i) as [E|E].
+    - rewrite E, (idx_F i Hik).
+      replace (0 <? nth i F 0%N)%N with true by (symmetry; apply N.ltb_lt; lia). reflexivity.
+    - destruct (normal_right a i Ha Hn Hin E) as [f [t [b [w [Ej [_ [Ht [_ [_ [_ [_ Hb]]]]]]]]]]].
+      rewrite Ej, idx_T. replace (n + b - n) with b by lia.
+      assert (nth b T 0%N <> 0%N) as Ht0 by (apply T_nonzero, nth_In, Hb).
+      replace (0 <? nth i F 0%N)%N with true by (symmetry; apply N.ltb_lt; lia).
+      replace (0 <? nth b T 0%N)%N with true by (symmetry; apply N.ltb_lt; lia). reflexivity.
+  Qed.
+
+  Lemma map_nth_seq_N (l : list N) : map (fun i => nth i l 0%N) (seq 0 (length l)) = l.
+  Proof.
+    apply (nth_ext _ _ 0%N 0%N).
+    - rewrite map_length, seq_length. reflexivity.
+    - intros j Hj. rewrite map_length, seq_length in Hj.
+      rewrite (nth_indep _ 0%N ((fun i => nth i l 0%N) O)) by (rewrite map_length, seq_length; exact Hj).
+      rewrite (map_nth (fun i => nth i l 0%N) (seq 0 (length l)) O j). rewrite seq_nth by exact Hj. reflexivity.
+  Qed.
+
+  Lemma W_fst a : map fst (map (wentry a) (seq 0 k)) = F.
+  Proof. rewrite map_map. unfold wentry. cbn [fst]. apply map_nth_seq_N. Qed.
+
+  Lemma nth_error_nth_N (l : list N) i : i < length l -> nth_error l i = Some (nth i l 0%N).
+  Proof. intro H. apply nth_error_nth'. exact H. Qed.
+
+  Lemma NoDup_nth_N (l : list N) i j : NoDup l -> i < length l -> j < length l -> nth i l 0%N = nth j l 0%N -> i = j.
+  Proof. intros Hn Hi Hj E. rewrite (NoDup_nth l 0%N) in Hn. apply Hn; assumption. Qed.
+
+  Lemma W_snd_NoDup a : is_assignment n (n + cols) a -> normal a -> NoDup (map snd (map (wentry a) (seq 0 k))).
+  Proof.
+    intros Ha Hn. pose proof Ha as [Hl [Hnd Hr]]. rewrite map_map. apply NoDup_map_inj_on; [apply seq_NoDup|].
+    intros x y Hx Hy E. apply in_seq in Hx, Hy. unfold wentry in E. cbn [snd] in E.
+    assert (x < n /\ y < n) as [Hxn Hyn] by (unfold k, F in *; lia).
+    destruct (Nat.eqb_spec (nth x a O) x) as [Ex|Ex], (Nat.eqb_spec (nth y a O) y) as [Ey|Ey].
+    - apply (NoDup_nth_N F); [apply froms_NoDup | lia | lia | exact E].
+    - exfalso. destruct (normal_right a y Ha Hn Hyn Ey) as [f [t [b [w [Ej [_ [_ [_ [_ [_ [_ Hb]]]]]]]]]]].
+      rewrite Ej in E. replace (n + b - n) with b in E by lia.
+      apply (F_T_disjoint (nth x F 0%N)); [apply nth_In; lia | rewrite E; apply nth_In; exact Hb].
+    - exfalso. destruct (normal_right a x Ha Hn Hxn Ex) as [f [t [b [w [Ej [_ [_ [_ [_ [_ [_ Hb]]]]]]]]]]].
+      rewrite Ej in E. replace (n + b - n) with b in E by lia.
+      apply (F_T_disjoint (nth y F 0%N)); [apply nth_In; lia | rewrite <- E; apply nth_In; exact Hb].
+    - destruct (normal_right a x Ha Hn Hxn Ex) as [f [t [b [w [Ej [_ [_ [_ [_ [_ [_ Hb]]]]]]]]]]].
+      destruct (normal_right a y Ha Hn Hyn Ey) as [f' [t' [b' [w' [Ej' [_ [_ [_ [_ [_ [_ Hb']]]]]]]]]]].
+      rewrite Ej, Ej' in E. replace (n + b - n) with b in E by lia. replace (n + b' - n) with b' in E by lia.
+      assert (b = b') by (apply (NoDup_nth_N T); [apply tos_NoDup | assumption | assumption | exact E]). subst b'.
+      rewrite (NoDup_nth a O) in Hnd. apply Hnd; [lia | lia | congruence].
+  Qed.
+
+  Lemma W_gated a f t :
+    is_assignment n (n + cols) a -> normal a -> In (f, t) (map (wentry a) (seq 0 k)) ->
+    t = f \/ exists w, lastw s f t = Some w /\ (thr <= w)%Z.
+  Proof.
+    intros Ha Hn Hin. apply in_map_iff in Hin. destruct Hin as [i [E Hi]]. apply in_seq in Hi.
+    unfold wentry in E. assert (i < n) as Hin by (unfold k, F in *; lia).
+    destruct (Nat.eqb_spec (nth i a O) i) as [Ei|Ei]; inversion E; subst; [left; reflexivity|]. right.
+    destruct (normal_right a i Ha Hn Hin Ei) as [f [t [b [w [Ej [Hf [Ht [Hw [_ [Hge _]]]]]]]]]].
+    exists w. rewrite Ej. replace (n + b - n) with b by lia.
+    rewrite (nth_error_nth _ _ 0%N Hf), (nth_error_nth _ _ 0%N Ht). split; assumption.
+  Qed.
+
+  Definition wterm (e : N * N) : Z :=
+    if (fst e =? snd e)%N then thr else match lastw s (fst e) (snd e) with Some x => x | None => 0%Z end.
+
+  Lemma w_value_zsum W : w_value s thr W = zsum (fun i => wterm (nth i W (0%N, 0%N))) (seq 0 (length W)).
+  Proof. unfold w_value. apply (fold_right_zsum wterm W (0%N, 0%N)). Qed.
+
+  Lemma W_term a i : is_assignment n (n + cols) a -> normal a -> i < k -> wterm (wentry a i) = mget m i (nth i a O).
+  Proof.
+    intros Ha Hn Hi. assert (i < n) as Hin by (unfold k, F in *; lia).
+    unfold wterm, wentry. cbn [fst snd].
+    destruct (Nat.eqb_spec (nth i a O) i) as [E|E].
+    - rewrite N.eqb_refl, E, (cell_diag i Hin). reflexivity.
+    - destruct (normal_right a i Ha Hn Hin E) as [f [t [b [w [Ej [Hf [Ht [Hw [Em [_ [_ Hb]]]]]]]]]]].
+      rewrite Ej. replace (n + b - n) with b by lia.
+      rewrite (nth_error_nth _ _ 0%N Hf), (nth_error_nth _ _ 0%N Ht).
+      destruct (N.eqb_spec f t) as [Eft|_].
+      + exfalso. apply (F_T_disjoint f); [eapply nth_error_In; exact Hf | rewrite Eft; eapply nth_error_In; exact Ht].
+      + rewrite Hw. rewrite <- Em, Ej. reflexivity.
+  Qed.
+
+  Lemma W_value a :
+    is_assignment n (n + cols) a -> normal a ->
+    aweight m a = (w_value s thr (map (wentry a) (seq 0 k)) + thr * Z.of_nat (n - k))%Z.
+  Proof.
+    intros Ha Hn. rewrite aweight_index, w_value_zsum. rewrite map_length, seq_length.
+    rewrite (seq_split n k) by (unfold k, F; exact HF). rewrite zsum_app. f_equal.
+    - apply zsum_ext. intros i Hi. apply in_seq in Hi.
+      rewrite (nth_indep _ (0%N, 0%N) (wentry a O)) by (rewrite map_length, seq_length; lia).
+      rewrite (map_nth (wentry a) (seq 0 k) O i), seq_nth by lia. symmetry. apply W_term; [exact Ha | exact Hn | lia].
+    - rewrite <- (seq_length (n - k) k) at 2. rewrite <- zsum_const. apply zsum_ext. intros i Hi. apply in_seq in Hi.
+      rewrite (normal_empty a i Ha Hn) by (unfold k, F in *; lia). apply cell_diag. unfold k, F in *. lia.
+  Qed.
+
+  (* --- every partial matching is an assignment of the same value --- *)
+  Definition gcol (M : pmatch) (i : nat) : nat :=
+    match nth_error M i with
+    | Some (_, Some t) => match index_of t T with Some b => n + b | None => i end
+    | _ => i
+    end.
+  Definition a_of (M : pmatch) : list nat := map (gcol M) (seq 0 n).
+
+  Lemma matched_nth_unique M : NoDup (matched M) -> forall i1 i2 d1 d2 t,
+    nth_error M i1 = Some (d1, Some t) -> nth_error M i2 = Some (d2, Some t) -> i1 = i2.
+  Proof.
+    induction M as [|e M IH]; intros Hnd i1 i2 d1 d2 t H1 H2; [destruct i1; discriminate|].
+    rewrite matched_cons in Hnd.
+    assert (NoDup (matched M)) as Hnd' by (destruct (snd e); [inversion Hnd; assumption | exact Hnd]).
+    destruct i1 as [|i1], i2 as [|i2]; cbn [nth_error] in H1, H2.
+    - reflexivity.
+    - exfalso. inversion H1; subst e. cbn [snd] in Hnd. inversion Hnd as [|? ? Hn _]; subst.
+      apply Hn. apply matched_In. exists d2. eapply nth_error_In, H2.
+    - exfalso. inversion H2; subst e. cbn [snd] in Hnd. inversion Hnd as [|? ? Hn _]; subst.
+      apply Hn. apply matched_In. exists d1. eapply nth_error_In, H1.
+    - f_equal. eapply IH; eassumption.
+  Qed.
+
+  Lemma gcol_cases M i :
+    valid_pm (lastw s) F T M ->
+    (gcol M i = i /\ forall d t, nth_error M i <> Some (d, Some t)) \/
+    (exists d t b w, nth_error M i = Some (d, Some t) /\ index_of t T = Some b /\ gcol M i = n + b /\ b < length T
+                     /\ lastw s d t = Some w).
+  Proof.
+    intros [_ [_ HC]]. unfold gcol. destruct (nth_error M i) as [[d [t|]]|] eqn:E.
+    - right. destruct (HC d t (nth_error_In _ _ E)) as [Ht Hw].
+      destruct (index_of_In _ _ Ht) as [b Eb]. destruct (lastw s d t) as [w|] eqn:Ew; [|congruence].
+      exists d, t, b, w. rewrite Eb. splits; try reflexivity; try exact Ew.
+      apply nth_error_Some. rewrite (index_of_Some _ _ _ Eb). discriminate.
+    - left. split; [reflexivity | intros; discriminate].
+    - left. split; [reflexivity | intros; discriminate].
+  Qed.
+
+  Lemma a_of_assignment M : valid_pm (lastw s) F T M -> is_assignment n (n + cols) (a_of M).
+  Proof.
+    intro HV. unfold is_assignment, a_of. splits.
+    - rewrite map_length, seq_length. reflexivity.
+    - apply NoDup_map_inj_on; [apply seq_NoDup|]. intros x y Hx Hy E. apply in_seq in Hx, Hy.
+      destruct (gcol_cases M x HV) as [[Gx _]|[d [t [b [w [Nx [Ix [Gx [Bx _]]]]]]]]],
+               (gcol_cases M y HV) as [[Gy _]|[d' [t' [b' [w' [Ny [Iy [Gy [By _]]]]]]]]]; try lia.
+      assert (b = b') by lia. subst b'.
+      assert (t = t') by (apply index_of_Some in Ix, Iy; congruence). subst t'.
+      destruct HV as [_ [Hnd _]]. eapply matched_nth_unique; eassumption.
+    - intros j Hj. apply in_map_iff in Hj. destruct Hj as [i [E Hi]]. apply in_seq in Hi.
+      destruct (gcol_cases M i HV) as [[G _]|[d [t [b [w [_ [_ [G [B _]]]]]]]]]; unfold T in *; lia.
+  Qed.
+
+  Lemma a_of_weight M :
+    valid_pm (lastw s) F T M -> aweight m (a_of M) = (pm_value (lastw s) thr M + thr * Z.of_nat (n - k))%Z.
+  Proof.
+    intro HV. pose proof HV as [HM [_ HC]].
+    assert (length M = k) as HlM by (unfold k; rewrite <- HM, map_length; reflexivity).
+    rewrite aweight_index. unfold pm_value. rewrite (fold_right_zsum (pm_term (lastw s) thr) M (0%N, None)), HlM.
+    rewrite (seq_split n k) by (unfold k, F; exact HF). rewrite zsum_app. f_equal.
+    - apply zsum_ext. intros i Hi. apply in_seq in Hi. assert (i < n) as Hin by (unfold k, F in *; lia).
+      unfold a_of. rewrite (nth_map_seq (gcol M) n i Hin).
+      assert (exists o, nth_error M i = Some (nth i F 0%N, o)) as [o Eo].
+      { destruct (nth_error M i) as [[d o]|] eqn:E; [|apply nth_error_None in E; lia].
+        exists o. f_equal. f_equal.
+        assert (nth_error (map fst M) i = Some d) as E' by (rewrite nth_error_map, E; reflexivity).
+        rewrite HM in E'. rewrite (nth_error_nth _ _ 0%N E'). reflexivity. }
+      rewrite (nth_error_nth _ _ (0%N, None) Eo). unfold pm_term. cbn [fst snd].
+      destruct (gcol_cases M i HV) as [[G Hno]|[d [t [b [w [Ni [Ix [G [B Hw]]]]]]]]].
+      + rewrite G, (cell_diag i Hin). destruct o as [t|]; [exfalso; apply (Hno _ _ Eo) | reflexivity].
+      + rewrite Eo in Ni. inversion Ni; subst d o. rewrite G.
+        rewrite (cell_right i b (nth i F 0%N) t); [reflexivity | apply nth_error_nth'; lia | apply index_of_Some, Ix | unfold T in *; lia].
+    - rewrite <- (seq_length (n - k) k) at 2. rewrite <- zsum_const. apply zsum_ext. intros i Hi. apply in_seq in Hi.
+      assert (i < n) as Hin by (unfold k, F in *; lia).
+      unfold a_of. rewrite (nth_map_seq (gcol M) n i Hin). unfold gcol.
+      replace (nth_error M i) with (@None (N * option N)) by (symmetry; apply nth_error_None; lia).
+      apply cell_diag, Hin.
+  Qed.
+
+  Lemma is_assignment_m a : is_assignment n (n + cols) a -> is_assignment (length m) (ncols m) a.
+  Proof.
+    intro Ha. destruct (Nat.eq_dec n 0) as [E|E].
+    - destruct Ha as [Hl _]. destruct Hd as [Hr _]. rewrite E in *.
+      destruct a; [|discriminate]. unfold is_assignment. splits; [symmetry; exact Hr | constructor | intros ? []].
+    - apply is_assignment_cols; [lia | exact Ha].
+  Qed.
+
+  Lemma optimal_beats_pm a M :
+    is_assignment n (n + cols) a -> optimal m a -> normal a -> valid_pm (lastw s) F T M ->
+    (pm_value (lastw s) thr M <= w_value s thr (map (wentry a) (seq 0 k)))%Z.
+  Proof.
+    intros Ha Hopt Hn HV.
+    pose proof (Hopt (a_of M) (is_assignment_m _ (a_of_assignment M HV))) as H.
+    rewrite (a_of_weight M HV), (W_value a Ha Hn) in H. lia.
+  Qed.
+
+  (* the winners list read as a partial matching *)
+  Definition pm_of (W : list (N * N)) : pmatch :=
+    map (fun e => (fst e, if (fst e =? snd e)%N then None else Some (snd e))) W.
+
+  Lemma pm_of_value W : pm_value (lastw s) thr (pm_of W) = w_value s thr W.
+  Proof.
+    induction W as [|e W IH]; [reflexivity|]. cbn [pm_of map]. rewrite pm_value_cons. fold (pm_of W). rewrite IH.
+    unfold w_value at 2. cbn [fold_right]. fold (w_value s thr W). f_equal.
+    unfold pm_term. cbn [fst snd]. destruct (fst e =? snd e)%N; reflexivity.
+  Qed.
+
+  Lemma pm_of_matched_NoDup W : NoDup (map snd W) -> NoDup (matched (pm_of W)).
+  Proof.
+    induction W as [|e W IH]; intro H; [constructor|]. cbn [pm_of map] in *. fold (pm_of W).
+    inversion H as [|? ? Hn Hnd]; subst. rewrite matched_cons. cbn [snd].
+    destruct (fst e =? snd e)%N; [apply IH, Hnd|]. constructor; [|apply IH, Hnd].
+    intro Hin. apply Hn. apply matched_In in Hin. destruct Hin as [d Hin].
+    unfold pm_of in Hin. apply in_map_iff in Hin. destruct Hin as [e' [E He']].
+    destruct (fst e' =? snd e')%N; [discriminate|]. inversion E. apply in_map_iff. exists e'. split; [congruence | exact He'].
+  Qed.
+
+  Lemma pm_of_valid a :
+    is_assignment n (n + cols) a -> normal a -> valid_pm (lastw s) F T (pm_of (map (wentry a) (seq 0 k))).
+  Proof.
+    intros Ha Hn. unfold valid_pm. splits.
+    - unfold pm_of. rewrite map_map. cbn [fst]. apply (W_fst a).
+    - apply pm_of_matched_NoDup, W_snd_NoDup; assumption.
+    - intros d t Hin. unfold pm_of in Hin. apply in_map_iff in Hin. destruct Hin as [[f t'] [E He]]. cbn [fst snd] in E.
+      destruct (N.eqb_spec f t') as [Eq|Ne]; [discriminate|]. inversion E; subst.
+      destruct (W_gated a _ _ Ha Hn He) as [Eq|[w [Hw _]]]; [congruence|].
+      split; [|congruence]. destruct (lastw_Some_In _ _ _ _ Hw) as [p [Hp [_ Ep]]]. apply tos_In. exists p. tauto.
+  Qed.
+End Padded.
+
+Definition gated_winners (thr : Z) (s : pairs) (W : list (N * N)) : Prop :=
+  map fst W = froms s /\                                     (* one entry per detection of the stream, in order *)
+  NoDup (map snd W) /\                                        (* no track (and no detection) twice *)
+  (forall f t, In (f, t) W -> t = f \/ exists w, lastw s f t = Some w /\ (thr <= w)%Z).   (* itself, or a gated stream pair *)
+
+Lemma pad_opt_lemma thr n cols s m idx a :
+  (0 < thr)%Z -> ids_disj s -> pad_matrix thr n cols s = Some (m, idx) ->
+  is_assignment n (n + cols) a -> optimal m a ->
+  exists W, decode idx a = Some W /\ gated_winners thr s W /\
+            (forall M, valid_pm (lastw s) (froms s) (tos s) M -> (pm_value (lastw s) thr M <= w_value s thr W)%Z) /\
+            w_value s thr W = fst (fst (best_partial thr s)).
+Proof.
+  intros Hthr Hdisj Hpad Ha Hopt.
+  destruct (pad_matrix_spec _ _ _ _ _ _ Hpad Hdisj) as [Eidx [HF [HT [Hd [Hnz Hcell]]]]].
+  assert (normal thr n m a) as Hn by (intros i Hi; eapply optimal_normal; eassumption).
+  exists (map (wentry n s a) (seq 0 (length (froms s)))).
+  assert (forall M, valid_pm (lastw s) (froms s) (tos s) M ->
+            (pm_value (lastw s) thr M <= w_value s thr (map (wentry n s a) (seq 0 (length (froms s)))))%Z) as Hbeat.
+  { intros M HV. eapply optimal_beats_pm; eassumption. }
+  splits.
+  - rewrite Eidx. eapply decode_normal; eassumption.
+  - unfold gated_winners. splits.
+    + apply W_fst.
+    + eapply W_snd_NoDup; eassumption.
+    + intros f t Hin. eapply W_gated; eassumption.
+  - exact Hbeat.
+  - apply Z.le_antisymm.
+    + rewrite <- (pm_of_value thr s). apply best_partial_optimal_lemma. eapply pm_of_valid; eassumption.
+    + destruct (best_partial_attained_lemma thr s) as [HV E]. rewrite <- E. apply Hbeat, HV.
+Qed.
+
+(* ---------------------------------------------------------------------------------------------- *)
+(* consequences *)
+Lemma NoDup_map_fst_unique {A B} (l : list (A * B)) x y y' :
+  NoDup (map fst l) -> In (x, y) l -> In (x, y') l -> y = y'.
+Proof.
+  induction l as [|[a b] l IH]; cbn [map fst In]; intros Hnd H1 H2; [contradiction|].
+  inversion Hnd as [|? ? Hn Hd]; subst.
+  destruct H1 as [H1|H1], H2 as [H2|H2].
+  - congruence.
+  - inversion H1; subst. exfalso. apply Hn. apply in_map_iff. exists (x, y'). split; [reflexivity | exact H2].
+  - inversion H2; subst. exfalso. apply Hn. apply in_map_iff. exists (x, y). split; [reflexivity | exact H1].
+  - eapply IH; eassumption.
+Qed.
+
+Lemma is_assignment_of_m n cols m a :
+  dims n (n + cols) m -> is_assignment (length m) (ncols m) a -> is_assignment n (n + cols) a.
+Proof.
+  intros Hd Ha. destruct (Nat.eq_dec n 0) as [E|E].
+  - destruct Ha as [Hl _]. destruct Hd as [Hr _]. rewrite Hr, E in Hl. destruct a; [|discriminate].
+    unfold is_assignment. splits; [symmetry; exact E | constructor | intros ? []].
+  - rewrite (ncols_dims _ _ _ Hd) in Ha by lia. destruct Hd as [Hr _]. rewrite Hr in Ha. exact Ha.
+Qed.
+
+Section Hungarian.
+  Variable km : matrix -> list nat.
+
+  Lemma sort_winners_gated thr n cols s W :
+    (0 < thr)%Z -> ids_disj s -> length (tos s) <= cols ->
+    (forall m idx, pad_matrix thr n cols s = Some (m, idx) ->
+                   is_assignment (length m) (ncols m) (km m) /\ optimal m (km m)) ->
+    sort_winners km thr n cols s = Some W ->
+    gated_winners thr s W /\
+    (forall M, valid_pm (lastw s) (froms s) (tos s) M -> (pm_value (lastw s) thr M <= w_value s thr W)%Z) /\
+    w_value s thr W = fst (fst (best_partial thr s)).
+  Proof.
+    intros Hthr Hdisj HT Hkm Hrun. unfold sort_winners in Hrun.
+    destruct (Nat.eqb_spec cols 0) as [E0|E0].
+    - (* no tracks declared: the stream has no track, hence no entry *)
+      inversion Hrun; subst W. assert (tos s = []) as ET by (destruct (tos s); [reflexivity | cbn in HT; lia]).
+      assert (s = []) as Es.
+      { destruct s as [|p r]; [reflexivity|]. exfalso.
+        assert (In (p_to p) (tos (p :: r))) as H by (apply tos_In; exists p; split; [left; reflexivity | reflexivity]).
+        rewrite ET in H. exact H. }
+      subst s. split; [|split].
+      + unfold gated_winners. cbn. split; [reflexivity|]. split; [constructor|]. intros f t [].
+      + intros M [HM _]. destruct M; [cbn; lia | discriminate].
+      + reflexivity.
+    - destruct (pad_matrix thr n cols s) as [[m idx]|] eqn:Ep; [|discriminate].
+      destruct (Hkm m idx eq_refl) as [Ha Hopt].
+      destruct (pad_matrix_spec _ _ _ _ _ _ Ep Hdisj) as [_ [_ [_ [Hd _]]]].
+      destruct (pad_opt_lemma thr n cols s m idx (km m) Hthr Hdisj Ep (is_assignment_of_m _ _ _ _ Hd Ha) Hopt)
+        as [W' [Hdec [Hg [Hb Hv]]]].
+      rewrite Hdec in Hrun. inversion Hrun; subst W'. splits; assumption.
+  Qed.
+
+  Lemma hungarian_total_lemma thr n cols s W :
+    (0 < thr)%Z -> ids_disj s -> length (tos s) <= cols ->
+    (forall m idx, pad_matrix thr n cols s = Some (m, idx) ->
+                   is_assignment (length m) (ncols m) (km m) /\ optimal m (km m)) ->
+    sort_winners km thr n cols s = Some W ->
+    forall f, In f (froms s) ->
+      exists t, In (f, t) W /\ (t = f \/ In t (tos s)) /\ forall t', In (f, t') W -> t' = t.
+  Proof.
+    intros Hthr Hdisj HT Hkm Hrun f Hf.
+    destruct (sort_winners_gated thr n cols s W Hthr Hdisj HT Hkm Hrun) as [[H1 [H2 H3]] _].
+    rewrite <- H1 in Hf. apply in_map_iff in Hf. destruct Hf as [[f' t] [E Hin]]. cbn [fst] in E. subst f'.
+    exists t. splits; [exact Hin | |].
+    - destruct (H3 f t Hin) as [E|[w [Hw _]]]; [left; exact E | right].
+      destruct (lastw_Some_In _ _ _ _ Hw) as [p [Hp [_ Ep]]]. apply tos_In. exists p. tauto.
+    - intros t' Hin'. eapply (NoDup_map_fst_unique W); [rewrite H1; apply froms_NoDup | exact Hin' | exact Hin].
+  Qed.
+
+  Lemma hungarian_only_queries_lemma thr n cols s W :
+    (0 < thr)%Z -> ids_disj s -> length (tos s) <= cols ->
+    (forall m idx, pad_matrix thr n cols s = Some (m, idx) ->
+                   is_assignment (length m) (ncols m) (km m) /\ optimal m (km m)) ->
+    sort_winners km thr n cols s = Some W ->
+    forall f t, In (f, t) W -> In f (froms s).
+  Proof.
+    intros Hthr Hdisj HT Hkm Hrun f t Hin.
+    destruct (sort_winners_gated thr n cols s W Hthr Hdisj HT Hkm Hrun) as [[H1 _] _].
+    rewrite <- H1. apply in_map_iff. exists (f, t). split; [reflexivity | exact Hin].
+  Qed.
+
+  Lemma hungarian_no_track_twice_lemma thr n cols s W :
+    (0 < thr)%Z -> ids_disj s -> length (tos s) <= cols ->
+    (forall m idx, pad_matrix thr n cols s = Some (m, idx) ->
+                   is_assignment (length m) (ncols m) (km m) /\ optimal m (km m)) ->
+    sort_winners km thr n cols s = Some W -> NoDup (map snd W).
+  Proof.
+    intros Hthr Hdisj HT Hkm Hrun.
+    destruct (sort_winners_gated thr n cols s W Hthr Hdisj HT Hkm Hrun) as [[_ [H2 _]] _]. exact H2.
+  Qed.
+End Hungarian.
+
+(* more declared tracks than the stream mentions (all-zero columns) change nothing *)
+Lemma aweight_agree n m m' a :
+  length m = n -> length m' = n -> (forall i, i < n -> mget m i (nth i a O) = mget m' i (nth i a O)) ->
+  aweight m a = aweight m' a.
+Proof.
+  intros H1 H2 H. unfold aweight. rewrite H1, H2. apply zsum_ext. intros i Hi. apply in_seq in Hi. apply H. lia.
+Qed.
+
+Lemma extra_zero_columns_lemma thr n c c' s m m' idx idx' a :
+  (0 < thr)%Z -> ids_disj s -> c <= c' ->
+  pad_matrix thr n c s = Some (m, idx) -> pad_matrix thr n c' s = Some (m', idx') ->
+  idx' = idx /\
+  (is_assignment n (n + c') a -> optimal m' a -> is_assignment n (n + c) a /\ optimal m a).
+Proof.
+  intros Hthr Hdisj Hcc Hp Hp'.
+  destruct (pad_matrix_spec _ _ _ _ _ _ Hp Hdisj) as [Eidx [HF [HT [Hd [Hnz Hcell]]]]].
+  destruct (pad_matrix_spec _ _ _ _ _ _ Hp' Hdisj) as [Eidx' [_ [HT' [Hd' [_ Hcell']]]]].
+  split; [congruence|]. intros Ha Hopt.
+  assert (normal thr n m' a) as Hn by (intros i Hi; eapply (optimal_normal thr n c' s m'); eassumption).
+  assert (is_assignment n (n + c) a) as Ha'.
+  { destruct Ha as [Hl [Hnd Hr]]. unfold is_assignment. splits; try assumption.
+    intros j Hj. destruct (In_nth _ _ O Hj) as [i [Hi Ei]]. rewrite Hl in Hi.
+    destruct (Nat.eq_dec (nth i a O) i) as [E|E]; [lia|].
+    destruct (normal_right thr n c' s m' Hthr HF HT' Hcell' a i (conj Hl (conj Hnd Hr)) Hn Hi E)
+      as [f [t [b [w [Ej [_ [_ [_ [_ [_ [_ Hb]]]]]]]]]]]. lia. }
+  split; [exact Ha'|].
+  assert (forall a0, is_assignment n (n + c) a0 -> aweight m a0 = aweight m' a0) as Hagree.
+  { intros a0 [Hl0 [_ Hr0]]. apply (aweight_agree n); [apply Hd | apply Hd'|].
+    intros i Hi. assert (nth i a0 O < n + c) by (apply Hr0, nth_In; lia).
+    rewrite Hcell, Hcell' by lia. reflexivity. }
+  intros a0 Ha0. apply (is_assignment_of_m n c m a0 Hd) in Ha0.
+  rewrite (Hagree a0 Ha0), (Hagree a Ha').
+  apply Hopt. apply (is_assignment_m thr n c' s m' HF HT' Hd' Hcell').
+  destruct Ha0 as [Hl0 [Hnd0 Hr0]]. unfold is_assignment. splits; try assumption.
+  intros j Hj. specialize (Hr0 j Hj). lia.
+Qed.
+
+Lemma best_partial_injective_lemma thr s : NoDup (matched (snd (fst (best_partial thr s)))).
+Proof. destruct (best_partial_attained_lemma thr s) as [[_ [H _]] _]. exact H. Qed.
+
+Lemma best_partial_domain_lemma thr s : map fst (snd (fst (best_partial thr s))) = froms s.
+Proof. destruct (best_partial_attained_lemma thr s) as [[H _] _]. exact H. Qed.
+
+(* a pair that does not pass the gate (absent from the stream, or weight below the threshold) is never continued *)
+Lemma ungated_never_continued_lemma thr s W f t :
+  gated_winners thr s W -> t <> f ->
+  (lastw s f t = None \/ exists w, lastw s f t = Some w /\ (w < thr)%Z) -> ~ In (f, t) W.
+Proof.
+  intros [_ [_ H]] Hne Hw Hin. destruct (H f t Hin) as [E|[w [E Hle]]]; [contradiction|].
+  destruct Hw as [Hw|[w' [Hw Hlt]]]; [congruence|]. rewrite E in Hw. inversion Hw. lia.
+Qed.
